@@ -59,6 +59,9 @@ CHECKS.update({
 })
 
 CHECKS.update({
+ "C23": dict(level="model_checking", ref="DESIGN.md 9 C23",
+  text="reduced: what mfmt does (parser.Parse, checker.Check, Unparser.Unparse) applied to the eleven C03 templates with one byte at any position replaced by an arbitrary byte: whenever the checker accepts the perturbed program, the formatted text is accepted too, formatting it again gives the identical text, and the two texts compile to the same program - the same opcodes and operands, strings, patterns, and metric declarations (kind, name, type, hidden flag, keys, limit, buckets)",
+  note="only one-byte perturbations of the eleven templates; equality of meaning is equality of the compiled programs (the exported name of a metric is not part of the compiled metric and is compared through the text's idempotence only); comments are dropped by the formatter by design"),
  "C03": dict(level="model_checking", ref="DESIGN.md 9 C03",
   text="reduced: the real compiler pipeline (parser.Parse with the real lexer and goyacc parser, opt.Optimise, checker.Check, codegen.CodeGen: the body of Compiler.Compile) executed symbolically on eleven program templates (declarations of every kind, by/limit/buckets/hidden/as, arithmetic, comparisons and logic, patterns with captures, const patterns and concatenation, conditionals with else and otherwise, decorators with next, del-after, strptime and other builtins, stop) in which one byte at any position (thorough: also two adjacent bytes, on the first four templates) is replaced by an arbitrary byte: it never panics, returns code or errors, never both and never neither, and a second compilation of the same text gives the same outcome and the same opcode sequence",
   note="only byte perturbations of the eleven templates, not arbitrary source texts; regexp/syntax.Parse, Regexp.Simplify/CapNames and regexp.Compile are the real functions applied to the pattern text with its symbolic byte concretised (a fork per value); unicode.IsLetter/IsDigit/IsSpace and UTF-8 decoding/encoding are engine models on symbolic runes; termination is bounded by the engine's per-path step budget"),
@@ -104,8 +107,7 @@ CHECKS.update({
 })
 
 NOT_APPLICABLE = {
- "C23": "quantifies only over program structure; no value dimension for a solver - degenerates to enumeration (DESIGN.md 4 C23)",
- "C24": "quantifies only over program structure; no value dimension for a solver - degenerates to enumeration (DESIGN.md 4 C24)",
+ "C24": "the compiler does run in the engine (C03, C23), but deciding C24 needs an oracle for 'this program is invalid for reason X' over the perturbed texts, i.e. a second implementation of the checker's rules; with concrete invalid programs only (no value dimension) it degenerates to the enumeration the repository's tests already do (DESIGN.md 4 C24, 9)",
 }
 
 # properties planned but whose check is not built yet are listed as not applicable
